@@ -32,26 +32,27 @@ CLAIMS['C07'] = dict(cat='model_checking', ref='DESIGN.md §4 C07',
 
 CLAIMS['C01'] = dict(cat='model_checking', ref='DESIGN.md §4 C01',
     text='SAT decides the map-oracle assertions (results of insert/remove/get/empty, value bytes, untouched other entries) for ALL 2^64 keys of one symbolic operation on each tree of a catalogue '
-         'of concrete shapes (every way a key can leave the tree), and for two/three fully symbolic keys from the empty index. Bounded: prelude + one symbolic operation, not arbitrary histories.',
+         'of concrete shapes (every way a key can leave the tree), and for two/three fully symbolic keys from the empty index; I48/I256 trees with children at the boundary key bytes 00/01/7F/80/81/FE/FF with one remove per boundary byte. '
+         'Bounded: prelude + one symbolic operation, not arbitrary histories.',
     note='trusted: translator (validated per run against the g++ build on solver-generated vectors), CBMC memory model, zero-initialised objects, allocation never fails here (C08 covers faults). '
          'Counterexamples are replayed on a native g++ build of the real code before being reported.')
 
 CLAIMS['C02'] = dict(cat='model_checking', ref='DESIGN.md §4 C02',
     text='SAT decides the comparison kernels for all inputs (incl. byte strings living in distinct buffers), complete scans in both directions with a symbolic halting position on '
-         'every catalogue shape, and seek/scan_from/scan_range with fully symbolic 64-bit bounds against a sorted-list oracle on the shapes whose SAT instance fits (root leaf: quick; '
-         '3-leaf I4 and the minimal fall-off-an-inner-node shape: thorough).',
-    note='iterator stack replaced by the guarded fixed-capacity hook; write-only key_buffer stubbed; symbolic bounds on trees deeper than two inode levels are out of reach (stated in evidence); '
+         'every catalogue shape, seek/scan_from/scan_range with fully symbolic 64-bit bounds against a sorted-list oracle on the root leaf, concrete boundary probes on I48/I256 nodes in arbitrary valid states, and constant operation '
+         'sequences on the OLC index (all five scan forms, bounds falling off nodes and diverging inside key prefixes at and below the root, symbolic halting position, visiting-order oracle).',
+    note='iterator stack replaced by the guarded fixed-capacity hook; write-only key_buffer stubbed; symbolic 64-bit bounds on trees with inner nodes exceed 40 GB of SAT memory on this tree (tier "deep", manual only - they found defect 2 earlier); '
          'uint64 keys only at tree level. Two defects found this way were repaired (known_findings.txt).')
 
 CLAIMS['C16'] = dict(cat='model_checking', ref='DESIGN.md §4 C16',
     text='The node-level and tree-level queries of C01/C02 are regenerated from the SSE4.1, assertion-enabled, SSE4.1+assertions and statistics-free builds of the real headers; SAT decides for all inputs '
-         'within the bounds that each configuration satisfies the same oracle (hence identical results) and that no library assertion is reachable on valid use.  Assertion-enabled OLC index: 11 operation sequences '
+         'within the bounds that each configuration satisfies the same oracle (hence identical results) and that no library assertion is reachable on valid use.  Assertion-enabled OLC index: 15 operation sequences '
          '(scans in both directions with a symbolic halting position, point operations over one to three inner levels) followed by the removal of every key, so that every node is freed through the debug callback and the '
          'read-section accounting is checked by the library itself.',
     note='equality of configurations is derived through the common oracle, not by a product program; spin-wait variants are indistinguishable single-threaded; the OLC sequences are a list of constants, not all histories.')
 
 CLAIMS['C13'] = dict(cat='model_checking', ref='DESIGN.md §4 C13',
-    text='SAT decides the lock discipline of every public mutex_db method (get/insert/remove for all 2^64 keys; scan, scan_from, scan_range over a boundary catalogue of bounds with a symbolic halting position; clear, empty, statistics getters) on a small tree: the inner index is only entered with the index mutex held (assertions injected at the '
+    text='SAT decides the lock discipline of every public mutex_db method (get/insert/remove for all 2^64 keys; scan, scan_from, scan_range over a boundary catalogue of bounds with a symbolic halting position; clear, empty, statistics getters; and all 16 of them while ANOTHER thread holds the mutex - lock() must wait, nothing may enter the index) on a small tree: the inner index is only entered with the index mutex held (assertions injected at the '
          'entry of the real inner functions), every method returns with it released, get() returns a lock-owning handle exactly on a hit and the handle releases it.',
     note='std::mutex = ghost owner flag (trusted semantics). Linearizability under free-running threads follows from this discipline by argument only; thread schedules and the "thousands of runs" of the '
          'quantifier are not reproduced (that part is sampling by nature).')
@@ -69,8 +70,8 @@ CLAIMS['C10'] = dict(cat='model_checking', ref='DESIGN.md §4 C10',
 
 CLAIMS['C17'] = dict(cat='model_checking', ref='DESIGN.md §4 C17',
     text='SAT decides, for every sequence of 2-3 (thorough: 4) wrapper operations with a symbolic choice among the 13 operation kinds, operands and offsets at every step, that all observers of qsbr_ptr '
-         'agree with shadow raw pointers after every step; qsbr_ptr_span vs its source span for every sub-span; in the assertion-enabled build the ghost registry equals the multiset of live non-null wrappers after every step.',
-    note='registry = ghost multiset behind the real out-of-line register/unregister functions; the link "quiescent/pause/resume assert registry emptiness" is by reading; sequences longer than the bound and self-assignment are outside the claim.')
+         'agree with shadow raw pointers after every step; qsbr_ptr_span vs its source span for every sub-span; in the assertion-enabled build the ghost registry equals the multiset of live non-null wrappers after every step; element types uint8_t/uint32_t/uint64_t; one query runs the REAL per-thread registry (std::unordered_multiset) from a duplicate-address prelude.',
+    note='registry = ghost multiset behind the real out-of-line register/unregister functions except in qreg-real-1 (there: _Prime_rehash_policy::_M_need_rehash modelled as never-rehash); the link "quiescent/pause/resume assert registry emptiness" is by reading; sequences longer than the bound and self-assignment are outside the claim.')
 
 SEQ_TECH = 'own sequentialisation (preemption points before every atomic access, preemption bound 1) of the IR-lowered real code; preemption index enumerated exhaustively, every schedule executed and checked by CBMC (symbolic executor with pointer/deallocation checks and unwinding assertions; SAT instances trivial)'
 SEQ_NOTE = ('the solver does not quantify over schedules here: a symbolic preemption index was measured out of reach (path-wise > 1200 s per scenario, merged: no result in 900 s), so the index is enumerated and CBMC '
